@@ -284,4 +284,164 @@ theorem arrayPartition_eq (op : Agg) (m : Nat) (rows : List (Nat × Int))
         exact hv p hp
       simp only [Function.comp]
       rw [fold_unit op x xs hx, hg]
+/-! ### NULLable aggregate inputs -/
+
+/-- exact grouped aggregation with NULLABLE inputs: NULL inputs are ignored, a group without input is NULL -/
+def xgroupN (op : Agg) (m : Nat) (rows : List (Nat × Option Int)) : XPart :=
+  ((List.range (m + 1)).filter (fun k => k ∈ rows.map (·.1))).map
+    fun (k : Nat) => ((k : Int), aggExact op (presentVals k rows))
+
+theorem xgroupN_sorted (op : Agg) (m : Nat) (rows : List (Nat × Option Int)) : XSorted (xgroupN op m rows) := by
+  unfold XSorted xgroupN
+  simp only [List.map_map]
+  have h1 : (List.range (m + 1)).Pairwise (· < ·) := List.pairwise_lt_range
+  have h2 := List.Pairwise.filter (fun k => decide (k ∈ rows.map (·.1))) h1
+  refine List.Pairwise.map _ ?_ h2
+  intro a b hab
+  simp
+  omega
+
+theorem presentVals_append (k : Nat) (r1 r2 : List (Nat × Option Int)) :
+    presentVals k (r1 ++ r2) = presentVals k r1 ++ presentVals k r2 := by
+  simp [presentVals, groupVals]
+
+theorem presentVals_nil_of_not_mem (k : Nat) (rows : List (Nat × Option Int)) (h : k ∉ rows.map (·.1)) :
+    presentVals k rows = [] := by
+  have : groupVals k rows = [] := by
+    simp only [groupVals, List.map_eq_nil_iff, List.filter_eq_nil_iff]
+    intro p hp
+    simp at h ⊢
+    intro hk
+    exact h p.2 (by rw [← hk]; exact hp)
+  simp [presentVals, this]
+
+theorem xlook_xgroupN (op : Agg) (m : Nat) (rows : List (Nat × Option Int)) (h : ∀ p ∈ rows, p.1 ≤ m) (j : Nat) :
+    xlook (xgroupN op m rows) (j : Int) =
+      if j ∈ rows.map (·.1) then some (aggExact op (presentVals j rows)) else none := by
+  unfold xgroupN
+  rw [xlook_map_nat]
+  by_cases hj : j ∈ rows.map (·.1)
+  · have : j ≤ m := by
+      simp at hj; obtain ⟨b, hb⟩ := hj; exact h _ hb
+    simp [hj]; omega
+  · simp [hj]
+
+theorem xgroupN_append (op : Agg) (m : Nat) (r1 r2 : List (Nat × Option Int))
+    (h1 : ∀ p ∈ r1, p.1 ≤ m) (h2 : ∀ p ∈ r2, p.1 ≤ m) :
+    xmerge op (xgroupN op m r1) (xgroupN op m r2) = xgroupN op m (r1 ++ r2) := by
+  have h12 : ∀ p ∈ r1 ++ r2, p.1 ≤ m := by
+    intro p hp; simp at hp; rcases hp with hp | hp; exact h1 p hp; exact h2 p hp
+  apply xpart_ext
+  · exact xmerge_sorted op _ _ (xgroupN_sorted op m r1) (xgroupN_sorted op m r2)
+  · exact xgroupN_sorted op m _
+  · intro k
+    rw [xlook_xmerge op _ _ (xgroupN_sorted op m r1) (xgroupN_sorted op m r2)]
+    by_cases hk : k < 0
+    · unfold xgroupN
+      simp [xlook_map_neg _ _ k hk, joinX]
+    · obtain ⟨j, rfl⟩ : ∃ j : Nat, k = (j : Int) := ⟨k.toNat, by omega⟩
+      rw [xlook_xgroupN op m r1 h1, xlook_xgroupN op m r2 h2, xlook_xgroupN op m _ h12, presentVals_append,
+        aggExact_append]
+      by_cases a1 : j ∈ r1.map (·.1) <;> by_cases a2 : j ∈ r2.map (·.1)
+      · simp [a1, a2, joinX]
+      · rw [presentVals_nil_of_not_mem j r2 a2, aggExact_nil, combineExact_none_right]
+        simp [a1, a2, joinX]
+      · rw [presentVals_nil_of_not_mem j r1 a1, aggExact_nil, combineExact_none_left]
+        simp [a1, a2, joinX]
+      · simp [a1, a2, joinX]
+
+theorem xunion_xgroupN (op : Agg) (m : Nat) (ps : List (List (Nat × Option Int))) (h : ∀ r ∈ ps, ∀ p ∈ r, p.1 ≤ m) :
+    xunion op (ps.map (xgroupN op m)) = xgroupN op m ps.flatten := by
+  induction ps with
+  | nil => simp [xunion, xgroupN]
+  | cons r rest ih =>
+    have hrest : ∀ r' ∈ rest, ∀ p ∈ r', p.1 ≤ m := fun r' hr' => h r' (by simp [hr'])
+    have := ih hrest
+    simp only [xunion, List.map_cons, List.foldr_cons, List.flatten_cons] at this ⊢
+    rw [this]
+    apply xgroupN_append op m r rest.flatten (h r (by simp))
+    intro p hp
+    simp at hp
+    obtain ⟨r', hr', hp'⟩ := hp
+    exact hrest r' hr' p hp'
+
+theorem fuseNulls_map (L : List Nat) (A : Nat → Int) (P : Nat → Bool) :
+    fuseNulls (L.map A) (L.map P) = L.map (fun k => if P k then A k else I64_MAX) := by
+  induction L with
+  | nil => rfl
+  | cons x xs ih => simp [fuseNulls, ih]
+
+/-- **Array aggregation with NULLable inputs is correct** (AggregateNullable + Exists + NonzeroIndices +
+    CompactNullable + FuseNulls): keys ascending, each once; value = exact aggregate of the PRESENT inputs, NULL (in-band)
+    for a group without any. -/
+theorem arrayPartitionNullable_eq (op : Agg) (m : Nat) (rows : List (Nat × Option Int))
+    (h : ∀ p ∈ rows, p.1 ≤ m) (hv : ∀ p ∈ rows, ∀ v, p.2 = some v → inI64 v) :
+    ∃ keys vals, arrayPartitionNullable (toOp op) m rows = some (keys, vals) ∧
+      (⟨[keys.map Int.ofNat], vals⟩ : Part) = encPart (xgroupN op m rows) := by
+  have h1 : ∀ p ∈ rows, p.1 < (freshAcc m (aggUnit (toOp op))).length := by
+    intro p hp; have := h p hp; simp [freshAcc]; omega
+  obtain ⟨acc, pres, e1, e2, e3, e4⟩ := accumulateNullable_spec (aggStep (toOp op)) rows
+    (freshAcc m (aggUnit (toOp op))) (List.replicate (m + 1) false) (by simp [freshAcc]) h1
+  have hsel : ∃ sel, existsOp (List.replicate (m + 1) 0) (rows.map (·.1)) = some sel ∧
+      sel = (List.range (m + 1)).map (fun k => if k ∈ rows.map (·.1) then 1 else 0) := by
+    have h2 : ∀ g ∈ rows.map (·.1), g < (List.replicate (m + 1) 0).length := by
+      intro g hg
+      simp at hg
+      obtain ⟨b, hb⟩ := hg
+      have := h (g, b) hb
+      simp; omega
+    obtain ⟨sel, hs1, hs2, hs3⟩ := existsOp_spec (rows.map (·.1)) (List.replicate (m + 1) 0) h2
+    refine ⟨sel, hs1, ?_⟩
+    apply eq_map_range _ _ _ (by simpa using hs2)
+    intro k hk
+    have hk2 : k < (List.replicate (m + 1) 0).length := by rw [← hs2]; exact hk
+    rw [hs3 k hk2 hk]
+    simp
+  obtain ⟨sel, hs1, hs2⟩ := hsel
+  have hlen : acc.length = m + 1 := by simpa [freshAcc] using e2
+  have hplen : pres.length = m + 1 := by simpa [freshAcc] using e3
+  have hacc : acc = (List.range (m + 1)).map
+      (fun k => (presentVals k rows).foldl (aggStep (toOp op)) (aggUnit (toOp op))) := by
+    apply eq_map_range _ _ _ hlen
+    intro k hk
+    have := (e4 k (by simpa [freshAcc] using (hlen ▸ hk)) hk (by simp; omega) (by omega)).1
+    simpa [freshAcc] using this
+  have hpres : pres = (List.range (m + 1)).map (fun k => !(presentVals k rows).isEmpty) := by
+    apply eq_map_range _ _ _ hplen
+    intro k hk
+    have := (e4 k (by simp [freshAcc]; omega) (by omega) (by simp; omega) hk).2
+    simpa using this
+  refine ⟨nonzeroIndices sel, fuseNulls (compact acc sel) (compact pres sel),
+    by simp [arrayPartitionNullable, e1, hs1, compactNullable], ?_⟩
+  have hk : nonzeroIndices sel = (List.range (m + 1)).filter (fun k => k ∈ rows.map (·.1)) := by
+    rw [hs2]
+    unfold nonzeroIndices
+    rw [List.range_eq_range', nonzero_map 0 (m + 1)]
+    congr 1
+    funext k
+    by_cases hk : k ∈ rows.map (·.1) <;> simp [hk]
+  have hfilt : ∀ {α : Type} (A : Nat → α), compact ((List.range (m + 1)).map A) sel =
+      ((List.range (m + 1)).filter (fun k => k ∈ rows.map (·.1))).map A := by
+    intro α A
+    rw [hs2, compact_map]
+    congr 1
+    congr 1
+    funext k
+    by_cases hk : k ∈ rows.map (·.1) <;> simp [hk]
+  rw [hk, hacc, hpres, hfilt, hfilt, fuseNulls_map]
+  simp only [encPart, xgroupN, List.map_map, Part.mk.injEq]
+  refine ⟨by simp [Function.comp_def], ?_⟩
+  apply List.map_congr_left
+  intro k _
+  simp only [Function.comp]
+  cases hg : presentVals k rows with
+  | nil => simp [aggExact, encV]
+  | cons x xs =>
+    have hx : inI64 x := by
+      have : x ∈ presentVals k rows := by rw [hg]; simp
+      simp only [presentVals, groupVals, List.mem_filterMap, List.mem_map, List.mem_filter] at this
+      obtain ⟨o, ⟨p, ⟨hp, _⟩, rfl⟩, ho⟩ := this
+      exact hv p hp x (by simpa using ho)
+    simp only [List.isEmpty_cons, Bool.not_false, if_true]
+    exact fold_unit op x xs hx
 end LM.C04L
